@@ -18,15 +18,16 @@ global size_of usize == 8;
 //#include ../_shared/linerange_specs.inc.rs
 //#include ../_shared/checkpoint_kind.inc.rs
 
-// stand-ins: never inspected by the verified text
-pub struct Repository { pub _opaque: () }
-pub struct Message { pub _opaque: () }
-pub struct AuthorshipMetadata { pub _opaque: () }
+// stand-ins: never inspected by the verified text.  ABSTRACT types (external_body): a struct with a unit field would have exactly one
+// value, which makes every uninterpreted function over it a constant and lets `two logs are equal` follow from equal attestations alone
+#[verifier::external_body] pub struct Repository { _o: () }
+#[verifier::external_body] pub struct Message { _o: () }
+#[verifier::external_body] pub struct AuthorshipMetadata { _o: () }
 pub enum GitAiError { Generic(String) }
 #[verifier::external_body]
 #[verifier::reject_recursive_types(T)]
 pub struct DateTime<T> { _p: core::marker::PhantomData<T> }
-pub struct FixedOffset { pub _opaque: () }
+#[verifier::external_body] pub struct FixedOffset { _o: () }
 
 //#item file=src/authorship/authorship_log.rs kind=struct name=Author
 pub struct Author {
@@ -189,7 +190,7 @@ pub uninterp spec fn cut_ok(s: Seq<char>, pos: int) -> bool;            // 0 <= 
 pub uninterp spec fn before(s: Seq<char>, pos: int) -> Seq<char>;       // &s[..pos]
 pub uninterp spec fn after(s: Seq<char>, pos: int) -> Seq<char>;        // &s[pos..]
 pub uninterp spec fn byte_len(s: Seq<char>) -> int;
-pub struct PErr { pub _opaque: () }
+#[verifier::external_body] pub struct PErr { _o: () }
 /// `range_str.find(',')`: documented - the byte offset of the first match; ',' is one byte long, so both the offset and the
 /// offset + 1 are char boundaries inside the string
 #[verifier::external_body]
@@ -637,7 +638,7 @@ fn overlay_ai_authorship(
             let num_lines = hunk.range.1 - hunk.range.0 + 1;
             for i in it_1: 0..num_lines
 //@     invariant
-//@         hunk_wf(h), h == *hunk, o == *options, fp == file_path@, np == npath(hv(h), fp), note_path@ == np, Some(authorship_log) == note_of(h.commit_sha@),
+//@         hunk_wf(h), h == *hunk, o == *options, fp == file_path@, np == npath(hv(h), fp), note_path@ == np, note_of(h.commit_sha@) is Some, note_of(h.commit_sha@)->Some_0 == authorship_log,
 //@         num_lines == hlen(h),
 //@         lines_ok(line_authors@, f0 + flat1(h).take(it_1.index@), fp, o, pkeys(prompt_records)),
             {
@@ -695,6 +696,8 @@ fn overlay_ai_authorship(
 //@     assert(line_authors@.contains_key(current_line_num) && line_authors@[current_line_num]@ == shown(rw, o, h.original_author@));
 //@     assert(gla_post(authorship_log, npath(rec.h, fp), rec.orig as u32, rw));
 //@     assert(rw is Some ==> pk2.contains(rw.unwrap().1.unwrap()@));
+//@     // the `log` rec_ok binds by matching on note_of(commit) IS the log the lookup above was made in (whole value, metadata included)
+//@     assert(note_of(rec.h.commit) is Some && note_of(rec.h.commit)->Some_0 == authorship_log);
 //@     assert(rec_ok(line_authors@[current_line_num]@, rec, fp, o, pk2));
 //@     lemma_lines_push(ma, fk, fp, o, pk0, pk2, current_line_num, line_authors@[current_line_num], rec);
 //@     assert(line_authors@ =~= ma.insert(current_line_num, line_authors@[current_line_num]));
